@@ -2773,7 +2773,6 @@ pub open spec fn is_subscribe_of(pk: MqttPacket, p: SubscribePacket) -> bool { p
 // with Encoder::encode above, the bytes handed to the transport for PUBLISH, SUBSCRIBE, UNSUBSCRIBE, PUBACK, PUBREC, PUBREL, PUBCOMP,
 // PINGREQ and DISCONNECT are the standard's layout, whatever the buffer sizes. Writers not under contract here are signature-only stubs
 // with NO postcondition (CONNECT 3.1.1, the MQTT 5 dispatch, and the packets a client never sends).
-#[verifier::external_body] pub fn write_connect_encoding_steps311(packet: &ConnectPacket, context: &EncodingContext, steps: &mut VecDeque<EncodingStep>) -> GneissResult<()> { unimplemented!() }
 #[verifier::external_body] pub fn write_connack_encoding_steps311(packet: &ConnackPacket, context: &EncodingContext, steps: &mut VecDeque<EncodingStep>) -> GneissResult<()> { unimplemented!() }
 #[verifier::external_body] pub fn write_suback_encoding_steps311(packet: &SubackPacket, context: &EncodingContext, steps: &mut VecDeque<EncodingStep>) -> GneissResult<()> { unimplemented!() }
 #[verifier::external_body] pub fn write_unsuback_encoding_steps311(packet: &UnsubackPacket, context: &EncodingContext, steps: &mut VecDeque<EncodingStep>) -> GneissResult<()> { unimplemented!() }
@@ -2792,6 +2791,7 @@ pub open spec fn wire311(pk: MqttPacket) -> Option<Seq<u8>> {
         MqttPacket::Pubcomp(p) => Some(seq![0x70u8, 2u8] + be16_bytes(p.packet_id)),
         MqttPacket::Pingreq(_) => Some(seq![0xC0u8, 0u8]),
         MqttPacket::Disconnect(_) => Some(seq![0xE0u8, 0u8]),
+        MqttPacket::Connect(p) => Some(connect311_bytes(p)),
         _ => None,
     }
 }
@@ -2801,6 +2801,7 @@ pub open spec fn sendable311(pk: MqttPacket) -> bool {
         MqttPacket::Publish(p) => blen(p.topic@) <= 65535 && publish_remaining_len311(p) <= 268435455,
         MqttPacket::Subscribe(p) => subs_ok(p.subscriptions@) && count_ok(p.subscriptions@.len()) && 2 + subs_len(p.subscriptions@, p.subscriptions@.len()) <= 268435455,
         MqttPacket::Unsubscribe(p) => filters_ok(p.topic_filters@) && count_ok(p.topic_filters@.len()) && 2 + filters_len(p.topic_filters@, p.topic_filters@.len()) <= 268435455,
+        MqttPacket::Connect(p) => connect311_sendable(p),
         _ => true,
     }
 }
@@ -4155,6 +4156,208 @@ pub proof fn lemma_lead_empty8(a: Seq<u8>, b: Seq<u8>, c: Seq<u8>, d: Seq<u8>, e
         lemma_g_final(s0, cur, acc, pk0);
         lemma_lead_empty8(seq![0xE0u8], vli(disconnect_remaining_len(*packet)), seq![packet.reason_code as u8], vli(plen), sei_piece(packet.session_expiry_interval_seconds), opt_str_prop_bytes(31u8, packet.reason_string), opt_str_prop_bytes(28u8, packet.server_reference), ups_piece(packet.user_properties));
         assert(acc == disconnect5_bytes(*packet));
+    }
+//@end
+
+
+// ---------------------------------------------------------------------------------------------------------------------------------
+// MQTT 3.1.1 CONNECT on the wire (C02, C07), OASIS 3.1.1 section 3.1: 10, Remaining Length, "MQTT" level 4, connect flags, keep alive, then the
+// payload in the order client identifier, will topic, will message, user name, password - each length-prefixed.
+//@macro gneiss-mqtt/src/encode.rs encode_length_prefixed_optional_string fnptr_opaque
+//@macro gneiss-mqtt/src/encode.rs encode_length_prefixed_optional_bytes fnptr_opaque
+pub open spec fn opt_str_len(o: Option<String>) -> nat { match o { Some(s) => blen(s@), None => 0 } }
+pub open spec fn opt_bin_len(o: Option<Vec<u8>>) -> nat { match o { Some(b) => b@.len(), None => 0 } }
+pub open spec fn connect_payload_len311(p: ConnectPacket) -> nat {
+    2 + opt_str_len(p.client_id)
+        + (match p.will { Some(will) => 2 + blen(will.topic@) + 2 + opt_bin_len(will.payload), None => 0 })
+        + (match p.username { Some(u) => 2 + blen(u@), None => 0 }) + (match p.password { Some(pw) => 2 + pw@.len(), None => 0 })
+}
+pub open spec fn connect_remaining_len311(p: ConnectPacket) -> nat { 10 + connect_payload_len311(p) }
+// A-MEM (as in the validate unit): no single field of a CONNECT is larger than 2^56 bytes
+pub open spec fn connect_fields_fit(p: ConnectPacket) -> bool {
+    &&& opt_str_len(p.client_id) <= 0x100000000000000 && opt_str_len(p.username) <= 0x100000000000000 && opt_bin_len(p.password) <= 0x100000000000000
+    &&& opt_str_len(p.authentication_method) <= 0x100000000000000 && opt_bin_len(p.authentication_data) <= 0x100000000000000
+    &&& ups_ok(p.user_properties) && (p.user_properties matches Some(ps) ==> count_ok(ps@.len()))
+    &&& (p.will matches Some(will) ==> blen(will.topic@) <= 0x100000000000000 && opt_bin_len(will.payload) <= 0x100000000000000
+            && opt_str_len(will.content_type) <= 0x100000000000000 && opt_str_len(will.response_topic) <= 0x100000000000000 && opt_bin_len(will.correlation_data) <= 0x100000000000000
+            && ups_ok(will.user_properties) && (will.user_properties matches Some(ps) ==> count_ok(ps@.len())))
+}
+pub open spec fn connect311_sendable(p: ConnectPacket) -> bool {
+    &&& connect_fields_fit(p)
+    &&& opt_str_len(p.client_id) <= 65535 && opt_str_len(p.username) <= 65535 && opt_bin_len(p.password) <= 65535
+    &&& (p.will matches Some(will) ==> blen(will.topic@) <= 65535 && opt_bin_len(will.payload) <= 65535)
+}
+// the contract proved in the validate unit (requires connect_fields_fit; Ok whenever the length fits 28 bits - it does when every length-prefixed field fits its 16-bit prefix),
+// specialised to 3.1.1 (connect_remaining_len(p, false) there is connect_remaining_len311(p) here); signature-only stub
+//@fn gneiss-mqtt/src/mqtt/connect.rs compute_connect_packet_length_properties311 stub
+    requires connect311_sendable(*packet),
+    ensures r matches Ok(rem) && rem == connect_remaining_len311(*packet),
+//@end
+// 3.1.2.3: bit 1 Clean Session, bit 2 Will Flag, bits 4-3 Will QoS, bit 5 Will Retain, bit 6 Password Flag, bit 7 User Name Flag, bit 0 reserved 0
+pub open spec fn connect_flags(p: ConnectPacket) -> u8 {
+    ((if p.clean_start { 2int } else { 0 })
+     + (match p.will { Some(will) => 4 + 8 * qos_num(will.qos) + (if will.retain { 32int } else { 0 }), None => 0 })
+     + (if p.password is Some { 64int } else { 0 }) + (if p.username is Some { 128int } else { 0 })) as u8
+}
+//@fn gneiss-mqtt/src/mqtt/connect.rs compute_connect_flags props=C02,C07
+    ensures r == connect_flags(*packet),
+//@@at bodystart
+    proof {
+        assert(1u8 << 1 == 2u8) by (bit_vector); assert(1u8 << 2 == 4u8) by (bit_vector); assert(1u8 << 5 == 32u8) by (bit_vector);
+        assert(1u8 << 6 == 64u8) by (bit_vector); assert(1u8 << 7 == 128u8) by (bit_vector);
+        assert(0u8 | 2u8 == 2u8) by (bit_vector);
+        assert(forall|f: u8| (f == 0 || f == 2) ==> #[trigger] (f | 4u8) == f + 4) by (bit_vector);
+        assert(forall|f: u8, q: u8| f <= 6 && q <= 2 ==> #[trigger] (f | (q << 3u8)) == f + 8 * q) by (bit_vector);
+        assert(forall|f: u8| f < 32 ==> #[trigger] (f | 32u8) == f + 32) by (bit_vector);
+        assert(forall|f: u8| f < 64 ==> #[trigger] (f | 64u8) == f + 64) by (bit_vector);
+        assert(forall|f: u8| f < 128 ==> #[trigger] (f | 128u8) == f + 128) by (bit_vector);
+        if packet.will is Some { assert(packet.will->Some_0.qos as u8 == qos_num(packet.will->Some_0.qos)); }
+    }
+//@end
+//@fn gneiss-mqtt/src/mqtt/connect.rs get_connect_packet_client_id props=C02
+    requires packet matches MqttPacket::Connect(p) && p.client_id is Some,
+    ensures packet matches MqttPacket::Connect(p) && p.client_id matches Some(t) && r@ == t@,
+//@end
+//@fn gneiss-mqtt/src/mqtt/connect.rs get_connect_packet_username props=C02
+    requires packet matches MqttPacket::Connect(p) && p.username is Some,
+    ensures packet matches MqttPacket::Connect(p) && p.username matches Some(t) && r@ == t@,
+//@end
+//@fn gneiss-mqtt/src/mqtt/connect.rs get_connect_packet_password props=C02
+    requires packet matches MqttPacket::Connect(p) && p.password is Some,
+    ensures packet matches MqttPacket::Connect(p) && p.password matches Some(t) && r@ == t@,
+//@end
+//@fn gneiss-mqtt/src/mqtt/connect.rs get_connect_packet_will_topic props=C02
+    requires packet matches MqttPacket::Connect(p) && p.will is Some,
+    ensures packet matches MqttPacket::Connect(p) && p.will matches Some(w) && r@ == w.topic@,
+//@end
+//@fn gneiss-mqtt/src/mqtt/connect.rs get_connect_packet_will_payload props=C02
+    requires packet matches MqttPacket::Connect(p) && p.will matches Some(w) && w.payload is Some,
+    ensures packet matches MqttPacket::Connect(p) && p.will matches Some(w) && w.payload matches Some(t) && r@ == t@,
+//@end
+// `static MQTT311_CONNECT_PROTOCOL_BYTES: [u8; 7] = [0, 4, 77, 81, 84, 84, 4]` is outside the Verus subset (static array): the getter is a signature-only stub whose
+// contract is the initialiser as written in connect.rs (the E-B reference decoder checks the bytes on the wire)
+#[verifier::external_body] pub fn get_connect_protocol_bytes311(_arg0: &MqttPacket) -> (r: &[u8]) ensures r@ == seq![0u8, 4u8, 77u8, 81u8, 84u8, 84u8, 4u8] { unimplemented!() }
+pub open spec fn optstr_lp(o: Option<String>) -> Seq<u8> { if o is Some { be16_bytes(blen(o->Some_0@) as u16) + str_bytes(o->Some_0@) } else { be16_bytes(0u16) } }
+pub open spec fn optbin_lp(o: Option<Vec<u8>>) -> Seq<u8> { if o is Some { be16_bytes(o->Some_0@.len() as u16) + o->Some_0@ } else { be16_bytes(0u16) } }
+pub open spec fn will_piece311(o: Option<PublishPacket>) -> Seq<u8> {
+    if o is Some { (be16_bytes(blen(o->Some_0.topic@) as u16) + str_bytes(o->Some_0.topic@)) + optbin_lp(o->Some_0.payload) } else { Seq::<u8>::empty() }
+}
+pub open spec fn user_piece(o: Option<String>) -> Seq<u8> { if o is Some { optstr_lp(o) } else { Seq::<u8>::empty() } }
+pub open spec fn password_piece(o: Option<Vec<u8>>) -> Seq<u8> { if o is Some { optbin_lp(o) } else { Seq::<u8>::empty() } }
+pub open spec fn connect311_bytes(p: ConnectPacket) -> Seq<u8> {
+    seq![0x10u8] + vli(connect_remaining_len311(p)) + seq![0u8, 4u8, 77u8, 81u8, 84u8, 84u8, 4u8] + seq![connect_flags(p)] + be16_bytes(p.keep_alive_interval_seconds)
+    + optstr_lp(p.client_id) + will_piece311(p.will) + user_piece(p.username) + password_piece(p.password)
+}
+pub proof fn lemma_lead_empty9(a: Seq<u8>, b: Seq<u8>, c: Seq<u8>, d: Seq<u8>, e: Seq<u8>, f: Seq<u8>, g: Seq<u8>, h: Seq<u8>, i: Seq<u8>)
+    ensures Seq::<u8>::empty() + a + b + c + d + e + f + g + h + i == a + b + c + d + e + f + g + h + i,
+{ assert(Seq::<u8>::empty() + a + b + c + d + e + f + g + h + i =~= a + b + c + d + e + f + g + h + i); }
+
+//@fn gneiss-mqtt/src/mqtt/connect.rs write_connect_encoding_steps311 props=C02,C07 fnptr_opaque
+//@@attr #[verifier::rlimit(100)]
+//@@attr #[verifier::spinoff_prover]
+    requires
+        connect311_sendable(*packet),          // send-time validation of the connect options
+    ensures
+        r is Ok,
+        steps_wf(old(steps)@, MqttPacket::Connect(*packet)) ==> steps_wf(final(steps)@, MqttPacket::Connect(*packet)),
+        flat(final(steps)@, MqttPacket::Connect(*packet)) == flat(old(steps)@, MqttPacket::Connect(*packet)) + connect311_bytes(*packet),
+//@@at bodystart
+    let ghost s0 = steps@;
+    let ghost mut cur = steps@;
+    let ghost mut acc = Seq::<u8>::empty();
+    let ghost mut pre7 = Seq::<u8>::empty();
+    let ghost mut pre8 = Seq::<u8>::empty();
+    let ghost mut pre9 = Seq::<u8>::empty();
+    let ghost pk0 = MqttPacket::Connect(*packet);
+    proof { lemma_g_init(s0, pk0); }
+//@@at after "encode_integral_expression!(steps, Uint8, 1u8 << 4);"
+    proof {
+        assert(1u8 << 4 == 16u8) by (bit_vector);
+        { let x = EncodingStep::Uint8(16u8); lemma_g_whole_int(x, pk0); lemma_g_push1(s0, cur, x, acc, int_bytes(x), pk0); cur = cur.push(x); acc = acc + int_bytes(x); }
+        assert(steps@ == cur);
+    }
+//@@at after "encode_integral_expression!(steps, Vli, total_remaining_length);"
+    proof {
+        { let x = EncodingStep::Vli(total_remaining_length); lemma_g_whole_int(x, pk0); lemma_g_push1(s0, cur, x, acc, int_bytes(x), pk0); cur = cur.push(x); acc = acc + int_bytes(x); }
+        assert(steps@ == cur);
+    }
+//@@at after "encode_raw_bytes!(steps, get_connect_protocol_bytes311);"
+    proof {
+        { let y = steps@[steps@.len() - 1]; assert(g_whole(y, seq![0u8, 4u8, 77u8, 81u8, 84u8, 84u8, 4u8], pk0)) by { reveal(g_whole); assert(get_connect_protocol_bytes311.requires((&pk0,))); } assert(step_off(y) == 0); lemma_g_push1(s0, cur, y, acc, seq![0u8, 4u8, 77u8, 81u8, 84u8, 84u8, 4u8], pk0); cur = cur.push(y); acc = acc + seq![0u8, 4u8, 77u8, 81u8, 84u8, 84u8, 4u8]; }
+        assert(steps@ == cur);
+    }
+//@@at after "encode_integral_expression!(steps, Uint8, compute_connect_flags(packet));"
+    proof {
+        { let x = EncodingStep::Uint8(connect_flags(*packet)); lemma_g_whole_int(x, pk0); lemma_g_push1(s0, cur, x, acc, int_bytes(x), pk0); cur = cur.push(x); acc = acc + int_bytes(x); }
+        assert(steps@ == cur);
+    }
+//@@at after "encode_integral_expression!(steps, Uint16, packet.keep_alive_interval_seconds);"
+    proof {
+        { let x = EncodingStep::Uint16(packet.keep_alive_interval_seconds); lemma_g_whole_int(x, pk0); lemma_g_push1(s0, cur, x, acc, int_bytes(x), pk0); cur = cur.push(x); acc = acc + int_bytes(x); }
+        assert(steps@ == cur);
+    }
+//@@at after "encode_length_prefixed_optional_string!(steps, get_connect_packet_client_id, packet.client_id);"
+    proof {
+        let pre = acc;
+        if packet.client_id is Some {
+            { let x = EncodingStep::Uint16(blen(packet.client_id->Some_0@) as u16); lemma_g_whole_int(x, pk0); lemma_g_push1(s0, cur, x, acc, int_bytes(x), pk0); cur = cur.push(x); acc = acc + int_bytes(x); }
+            { let y = steps@[steps@.len() - 1]; assert(g_whole(y, str_bytes(packet.client_id->Some_0@), pk0)) by { reveal(g_whole); assert(get_connect_packet_client_id.requires((&pk0,))); } assert(step_off(y) == 0); lemma_g_push1(s0, cur, y, acc, str_bytes(packet.client_id->Some_0@), pk0); cur = cur.push(y); acc = acc + str_bytes(packet.client_id->Some_0@); }
+            lemma_g_regroup2(s0, cur, pre, be16_bytes(blen(packet.client_id->Some_0@) as u16), str_bytes(packet.client_id->Some_0@), pk0);
+        } else { { let x = EncodingStep::Uint16(0u16); lemma_g_whole_int(x, pk0); lemma_g_push1(s0, cur, x, acc, int_bytes(x), pk0); cur = cur.push(x); acc = acc + int_bytes(x); } }
+        assert(steps@ == cur);
+        acc = pre + optstr_lp(packet.client_id); pre7 = acc;
+    }
+//@@at after "encode_length_prefixed_string!(steps, get_connect_packet_will_topic, will.topic);"
+        proof {
+            { let x = EncodingStep::Uint16(blen(will.topic@) as u16); lemma_g_whole_int(x, pk0); lemma_g_push1(s0, cur, x, acc, int_bytes(x), pk0); cur = cur.push(x); acc = acc + int_bytes(x); }
+            { let y = steps@[steps@.len() - 1]; assert(g_whole(y, str_bytes(will.topic@), pk0)) by { reveal(g_whole); assert(get_connect_packet_will_topic.requires((&pk0,))); } assert(step_off(y) == 0); lemma_g_push1(s0, cur, y, acc, str_bytes(will.topic@), pk0); cur = cur.push(y); acc = acc + str_bytes(will.topic@); }
+            assert(steps@ == cur);
+            lemma_g_regroup2(s0, cur, pre7, be16_bytes(blen(will.topic@) as u16), str_bytes(will.topic@), pk0);
+            acc = pre7 + (be16_bytes(blen(will.topic@) as u16) + str_bytes(will.topic@));
+        }
+//@@at after "encode_length_prefixed_optional_bytes!(steps, get_connect_packet_will_payload, will.payload);"
+        proof {
+            let pre = acc;
+            if will.payload is Some {
+                { let x = EncodingStep::Uint16(will.payload->Some_0@.len() as u16); lemma_g_whole_int(x, pk0); lemma_g_push1(s0, cur, x, acc, int_bytes(x), pk0); cur = cur.push(x); acc = acc + int_bytes(x); }
+                { let y = steps@[steps@.len() - 1]; assert(g_whole(y, will.payload->Some_0@, pk0)) by { reveal(g_whole); assert(get_connect_packet_will_payload.requires((&pk0,))); } assert(step_off(y) == 0); lemma_g_push1(s0, cur, y, acc, will.payload->Some_0@, pk0); cur = cur.push(y); acc = acc + will.payload->Some_0@; }
+                lemma_g_regroup2(s0, cur, pre, be16_bytes(will.payload->Some_0@.len() as u16), will.payload->Some_0@, pk0);
+            } else { { let x = EncodingStep::Uint16(0u16); lemma_g_whole_int(x, pk0); lemma_g_push1(s0, cur, x, acc, int_bytes(x), pk0); cur = cur.push(x); acc = acc + int_bytes(x); } }
+            assert(steps@ == cur);
+            lemma_g_regroup2(s0, cur, pre7, be16_bytes(blen(will.topic@) as u16) + str_bytes(will.topic@), optbin_lp(will.payload), pk0);
+            acc = pre7 + will_piece311(packet.will);
+        }
+//@@at before "if packet.username.is_some() {"
+    proof {
+        if packet.will is None { lemma_g_regroup0(s0, cur, pre7, pk0); }
+        acc = pre7 + will_piece311(packet.will); pre8 = acc;
+    }
+//@@at after "encode_length_prefixed_optional_string!(steps, get_connect_packet_username, packet.username);"
+        proof {
+            { let x = EncodingStep::Uint16(blen(packet.username->Some_0@) as u16); lemma_g_whole_int(x, pk0); lemma_g_push1(s0, cur, x, acc, int_bytes(x), pk0); cur = cur.push(x); acc = acc + int_bytes(x); }
+            { let y = steps@[steps@.len() - 1]; assert(g_whole(y, str_bytes(packet.username->Some_0@), pk0)) by { reveal(g_whole); assert(get_connect_packet_username.requires((&pk0,))); } assert(step_off(y) == 0); lemma_g_push1(s0, cur, y, acc, str_bytes(packet.username->Some_0@), pk0); cur = cur.push(y); acc = acc + str_bytes(packet.username->Some_0@); }
+            assert(steps@ == cur);
+            lemma_g_regroup2(s0, cur, pre8, be16_bytes(blen(packet.username->Some_0@) as u16), str_bytes(packet.username->Some_0@), pk0);
+        }
+//@@at before "if packet.password.is_some() {"
+    proof {
+        if packet.username is None { lemma_g_regroup0(s0, cur, pre8, pk0); }
+        acc = pre8 + user_piece(packet.username); pre9 = acc;
+    }
+//@@at after "encode_length_prefixed_optional_bytes!(steps, get_connect_packet_password, packet.password);"
+        proof {
+            { let x = EncodingStep::Uint16(packet.password->Some_0@.len() as u16); lemma_g_whole_int(x, pk0); lemma_g_push1(s0, cur, x, acc, int_bytes(x), pk0); cur = cur.push(x); acc = acc + int_bytes(x); }
+            { let y = steps@[steps@.len() - 1]; assert(g_whole(y, packet.password->Some_0@, pk0)) by { reveal(g_whole); assert(get_connect_packet_password.requires((&pk0,))); } assert(step_off(y) == 0); lemma_g_push1(s0, cur, y, acc, packet.password->Some_0@, pk0); cur = cur.push(y); acc = acc + packet.password->Some_0@; }
+            assert(steps@ == cur);
+            lemma_g_regroup2(s0, cur, pre9, be16_bytes(packet.password->Some_0@.len() as u16), packet.password->Some_0@, pk0);
+        }
+//@@at before "Ok(())"
+    proof {
+        if packet.password is None { lemma_g_regroup0(s0, cur, pre9, pk0); }
+        acc = pre9 + password_piece(packet.password);
+        lemma_g_final(s0, cur, acc, pk0);
+        lemma_lead_empty9(seq![0x10u8], vli(connect_remaining_len311(*packet)), seq![0u8, 4u8, 77u8, 81u8, 84u8, 84u8, 4u8], seq![connect_flags(*packet)], be16_bytes(packet.keep_alive_interval_seconds), optstr_lp(packet.client_id), will_piece311(packet.will), user_piece(packet.username), password_piece(packet.password));
+        assert(acc == connect311_bytes(*packet));
     }
 //@end
 
